@@ -92,8 +92,22 @@ func VerifHarness_C13_sync_step() {
 		return nil
 	})
 
-	first := vBlock13(H, 0xA, &types.Commit{})
-	firstID := types.BlockID{Hash: first.Hash(), PartsHeader: first.MakePartSet(4096).Header()}
+	// the block the chain committed at H (what the +2/3 precommits are for) ...
+	genuine := vBlock13(H, 0xA, &types.Commit{})
+	genuine.Data.Txs = types.Txs{types.Tx{0x01}}
+	firstID := types.BlockID{Hash: genuine.Hash(), PartsHeader: genuine.MakePartSet(4096).Header()} // Hash() fills in DataHash
+	// ... and the block the serving peer delivers for H: the genuine one, or a tampered copy
+	first := genuine
+	tamper := vNondetLen("tamper", 0, 2)
+	switch tamper {
+	case 1: // other transactions under the genuine header (the header hash does not change)
+		hdr := *genuine.Header
+		first = &types.Block{Header: &hdr, Data: &types.Data{Txs: types.Txs{types.Tx{0x02}}}, LastCommit: genuine.LastCommit}
+	case 2: // another application hash in the header
+		hdr := *genuine.Header
+		hdr.AppHash = []byte{0xAB}
+		first = &types.Block{Header: &hdr, Data: genuine.Data, LastCommit: genuine.LastCommit}
+	}
 	otherID := types.BlockID{Hash: []byte{0x66}, PartsHeader: types.PartSetHeader{Total: 1, Hash: []byte{0x66}}}
 	// the commit the serving peer put into block H+1: arbitrary
 	var lc *types.Commit
@@ -136,6 +150,7 @@ func VerifHarness_C13_sync_step() {
 		}
 	}
 	second := vBlock13(H+1, 0xB, lc)
+	second.Header.LastBlockID = firstID // an honest successor names the genuine block
 
 	pool := bcR.pool
 	for i, b := range []*types.Block{first, second} {
@@ -165,6 +180,7 @@ func VerifHarness_C13_sync_step() {
 		vAssert(len(executed) == 1 && executed[0] == first && executedWith[0] == lc, "applied-exactly-the-first-block-with-its-commit")
 		vAssert(lc != nil && len(lc.Precommits) == n, "applied-only-with-a-full-size-commit")
 		vAssert(good*3 > n*2, "applied-only-with-two-thirds-of-the-set-in-force")
+		vAssert(tamper == 0, "applied-block-is-the-one-the-commit-is-for")
 		vAssert(pool.height == H+1, "pool-advances-by-one")
 		_, still := pool.requesters[H]
 		vAssert(!still, "applied-block-popped")
@@ -175,7 +191,7 @@ func VerifHarness_C13_sync_step() {
 			vReach("serving-peer-dropped")
 		}
 		// a fully justified block is applied (no false rejection)
-		vAssert(!(lc != nil && len(lc.Precommits) == n && good == n && vC13SingleRound(lc)), "justified-block-is-applied")
+		vAssert(!(tamper == 0 && lc != nil && len(lc.Precommits) == n && good == n && vC13SingleRound(lc)), "justified-block-is-applied")
 	}
 	_ = setInForce
 }
